@@ -38,7 +38,7 @@ impl Check for C17 {
     }
     fn runs(&self, tier: Tier) -> u64 {
         match tier {
-            Tier::Quick => 150_000,
+            Tier::Quick => 500_000,
             Tier::Thorough => 8_000_000,
         }
     }
